@@ -1,5 +1,5 @@
 (* C01 — Live allocations are in-bounds and never overlap. *)
-From BV Require Import Word WordFacts ArenaModel ArenaSpec ArenaInv ArenaSafe ArenaSafeThm.
+From BV Require Import Word WordFacts ArenaModel ArenaSpec ArenaInv ArenaSafe ArenaSafeThm ArenaStruct ArenaTw.
 From Coq Require Import Lia.
 
 (* From ANY state satisfying the invariant (every finger position a chunk can be
@@ -9,46 +9,58 @@ From Coq Require Import Lia.
    every other block that is live or reserved. *)
 Theorem C01_any_state :
   forall k A g o x a,
-    cfg_ok k -> Inv k g -> wf_op k g o -> no_rewind o -> A_ok k A (fst g) ->
+    cfg_ok k -> Inv k g -> wf_op k g o -> A_ok k A (fst g) ->
     handed_out o (o_res (snd (gstep k A g o))) = Some (x, a) ->
     0 < fst x /\
     in_held_data k (fst (fst (gstep k A g o))) x /\
     Forall (bdisj x) (others k A g o).
 Proof.
-  intros k A g o x a K HI Hwf Hnr HA Hh.
+  intros k A g o x a K HI Hwf HA Hh.
+  assert (Hnr : no_rewind o).
+  { destruct o; try exact I. destruct ok; [exact I|]. cbn [handed_out] in Hh. discriminate. }
   destruct (handed_out_aligned k A g o x a K HI Hwf HA Hh) as (P0 & _ & _).
   destruct (handed_out_placed k A g o x a K HI Hwf Hnr HA Hh) as (H1 & H2).
   split; [exact P0|]. split; [exact H1 | exact H2].
 Qed.
 
-(* ... and every state reachable from a fresh arena by a history of operations
-   satisfies that invariant, whatever the global allocator answered. *)
+(* ... and every state reachable from a fresh arena by ANY history of operations satisfies
+   that invariant (and the bookkeeping of pending initialisers), whatever the global
+   allocator answered.  The only conditions on the history are the caller's obligations
+   (wf_op: layouts are valid, blocks passed back are live, reset/drop are not called from
+   inside an initialiser) and the allocator contract (A_ok). *)
 Theorem C01_reachable :
-  forall k h, cfg_ok k -> hist_ok k (fresh, []) h -> Inv k (grun k (fresh, []) h).
-Proof. intros k h K HH. apply grun_inv; [exact K | apply Inv_fresh | exact HH]. Qed.
+  forall k h, cfg_ok k -> hist_wf k (fresh, []) h -> Inv2 k (grun2 k (fresh, []) h).
+Proof. intros k h K HH. apply grun2_inv; [exact K | apply Inv2_fresh | exact HH]. Qed.
 
-Theorem C01_alloc_in_bounds_disjoint_partial :
+Theorem C01_every_step :
+  forall k A g o, cfg_ok k -> Inv2 k g -> wf_op k g o -> A_ok k A (fst g) -> Inv2 k (fst (gstep k A g o)).
+Proof. exact gstep_inv2. Qed.
+
+(* in particular the rewind of a failed initialiser, in every state *)
+Theorem C01_rewind_safe :
+  forall k A b live, cfg_ok k -> Inv k (b, live) -> TwsOk k b ->
+    Inv k (fst (gstep k A (b, live) (OTwEnd false))).
+Proof. exact rewind_inv. Qed.
+
+Theorem C01_alloc_in_bounds_disjoint :
   forall k h A o x a,
-    cfg_ok k -> hist_ok k (fresh, []) (h ++ [(o, A)]) ->
-    let g := grun k (fresh, []) h in
+    cfg_ok k -> hist_wf k (fresh, []) (h ++ [(o, A)]) ->
+    let g := grun2 k (fresh, []) h in
     handed_out o (o_res (snd (gstep k A g o))) = Some (x, a) ->
     0 < fst x /\
     in_held_data k (fst (fst (gstep k A g o))) x /\
     Forall (bdisj x) (others k A g o).
 Proof.
   intros k h A o x a K HH g Hh.
-  assert (S : forall g0, hist_ok k g0 (h ++ [(o, A)]) ->
-              hist_ok k g0 h /\ wf_op k (grun k g0 h) o /\ no_rewind o /\ A_ok k A (fst (grun k g0 h))).
-  { clear. induction h as [|[o1 A1] r IH]; intros g0 H; cbn [app hist_ok grun] in *.
+  assert (S : forall g0, hist_wf k g0 (h ++ [(o, A)]) ->
+              hist_wf k g0 h /\ wf_op k (grun2 k g0 h) o /\ A_ok k A (fst (grun2 k g0 h))).
+  { clear. induction h as [|[o1 A1] r IH]; intros g0 H; cbn [app hist_wf grun2] in *.
     - tauto.
-    - destruct H as (W & N & AO & H). destruct (IH _ H) as (H1 & H2 & H3 & H4). tauto. }
-  destruct (S _ HH) as (H1 & H2 & H3 & H4).
+    - destruct H as (W & AO & H). destruct (IH _ H) as (H1 & H2 & H3). tauto. }
+  destruct (S _ HH) as (H1 & H2 & H3).
   apply (C01_any_state k A g o x a K); try assumption.
-  apply grun_inv; [exact K | apply Inv_fresh | exact H1].
+  apply (grun2_inv k (fresh, []) h K (Inv2_fresh k) H1).
 Qed.
-(* "_partial": histories in which a failed initialiser rewinds the finger
-   (OTwEnd false) are excluded by hist_ok/no_rewind; they are covered by the
-   correspondence run and by sp_block_ok evaluated on the implementation. *)
 
 (* a successful zero-sized request leaves the list of other blocks untouched *)
 Theorem C01_zst :
@@ -72,14 +84,16 @@ Example C01_witness :
   let k := mkCfg 48 16 64 448 4096 8 4000 in
   let A0 := follow k [mkGreq 496 16 (Some 8192)] in
   let A := follow k [] in
-  let g := grun k (fresh, []) [(OWithCapacity 1, A0); (OAlloc (mkLayout 24 8), A)] in
+  let g := grun2 k (fresh, []) [(OWithCapacity 1, A0); (OAlloc (mkLayout 24 8), A)] in
   snd g = [(8616, 24)] /\
   handed_out (OAlloc (mkLayout 5 1)) (o_res (snd (gstep k A g (OAlloc (mkLayout 5 1))))) = Some ((8608, 5), 1).
 Proof. vm_compute. split; reflexivity. Qed.
 
 Print Assumptions C01_any_state.
 Print Assumptions C01_reachable.
-Print Assumptions C01_alloc_in_bounds_disjoint_partial.
+Print Assumptions C01_every_step.
+Print Assumptions C01_rewind_safe.
+Print Assumptions C01_alloc_in_bounds_disjoint.
 Print Assumptions C01_zst.
 
 (* ---- tie to the source text: try_alloc_layout_fast as parsed from /repo/src on every run
